@@ -66,6 +66,57 @@ Definition dpiece_okb (p : dpiece) : bool :=
   | DSub inner => forallb dinner_okb inner
   end.
 
+
+(* ---- executable check for the general tag opener -------------------------------------------------------------- *)
+Fixpoint name_run_b (eq : bool) (n : list Z) (nxt : Z) : bool :=
+  match n with
+  | [] => true
+  | c :: t => negb (name_stop eq c (match t with [] => nxt | c1 :: _ => c1 end)) && name_run_b eq t nxt
+  end.
+
+Definition name_end_b (eq : bool) (l : list Z) : bool :=
+  match l with
+  | [] => false
+  | c :: t => name_stop eq c (getz t 0) && (negb ((c =? 47) || (c =? 63)) || match t with [] => false | _ => true end)
+  end.
+
+Fixpoint next_not_eq_b (l : list Z) : bool :=
+  match l with
+  | [] => false
+  | c :: t => if is_ws c then next_not_eq_b t else negb (c =? 61)
+  end.
+
+Definition nil_b (l : list Z) : bool := match l with [] => true | _ => false end.
+
+Definition gattr_okb (a : gattr) (rest : list Z) : bool :=
+  all_ws_b (g_lead a) &&
+  match g_val a with
+  | VNone => negb (nil_b (g_name a)) && name_run_b true (g_name a) (getz rest 0) && name_end_b true rest && next_not_eq_b rest
+  | VUnq w1 w2 x =>
+      all_ws_b w1 && all_ws_b w2 && (negb (nil_b (g_name a)) || nil_b w1) &&
+      name_run_b true (g_name a) (getz (w1 ++ [61]) 0) &&
+      name_run_b false x (getz rest 0) && name_end_b false rest &&
+      negb (is_ws (getz (x ++ rest) 0)) && negb (getz (x ++ rest) 0 =? 34) && negb (getz (x ++ rest) 0 =? 39)
+  | VQuo w1 w2 q x =>
+      all_ws_b w1 && all_ws_b w2 && (negb (nil_b (g_name a)) || nil_b w1) &&
+      name_run_b true (g_name a) (getz (w1 ++ [61]) 0) &&
+      ((q =? 34) || (q =? 39)) && forallb (fun c => negb (c =? q) && negb (c =? 0)) x
+  end.
+
+Fixpoint gattrs_okb (l : list gattr) (tail : list Z) : bool :=
+  match l with
+  | [] => true
+  | a :: t => gattr_okb a (render_gattrs t ++ tail) && gattrs_okb t tail
+  end.
+
+Definition closer_tyb (k : ttype) : bool :=
+  match k with TStartTagClose | TStartTagCloseVoid | TStartTagClosePI => true | _ => false end.
+
+Definition itag_okb (pi : bool) (n : list Z) (gs : list gattr) (ws : list Z) (k : ttype) : bool :=
+  is_name_b false n && (pi || negb (getz n 0 =? 33)) && all_ws_b ws && closer_tyb k &&
+  gattrs_okb gs (ws ++ closer_bytes k) && name_end_b false (render_gattrs gs ++ ws ++ closer_bytes k).
+
+
 Definition item_okb (it : item) : bool :=
   match it with
   | IText t => match t with [] => false | _ => true end && forallb (fun c => negb (c =? 60) && negb (c =? 0)) t
@@ -75,6 +126,7 @@ Definition item_okb (it : item) : bool :=
   | IPI t attrs ws => is_name_b false t && forallb attr_okb attrs && all_ws_b ws
   | IStart n attrs ws void => is_name_b false n && negb (getz n 0 =? 33) && forallb attr_okb attrs && all_ws_b ws
   | IEnd n ws => is_name_b false n && all_ws_b ws
+  | ITag pi n gs ws k => itag_okb pi n gs ws k
   end.
 
 Fixpoint no_adjacent_text_b (l : list item) : bool :=
@@ -138,9 +190,70 @@ Proof.
   apply forallb_Forall. apply dinner_okb_sound.
 Qed.
 
+Lemma name_run_b_sound eq n nxt : name_run_b eq n nxt = true -> name_run eq n nxt.
+Proof.
+  induction n as [|c t IH]; cbn [name_run_b name_run]; [auto|]. intros H. b2p. split; [assumption|apply IH; assumption].
+Qed.
+
+Lemma name_end_b_sound eq l : name_end_b eq l = true -> name_end eq l.
+Proof.
+  destruct l as [|c t]; [discriminate|]. cbn [name_end_b]. intros H. b2p. exists c, t.
+  split; [reflexivity|]. split; [assumption|]. intros Hc Ht. subst t.
+  match goal with H : _ || _ = true |- _ => rewrite orb_false_r in H end. lia.
+Qed.
+
+Lemma next_not_eq_b_sound l : next_not_eq_b l = true -> next_not_eq l.
+Proof.
+  induction l as [|c t IH]; [discriminate|]. cbn [next_not_eq_b]. destruct (is_ws c) eqn:E.
+  - intros H. destruct (IH H) as (w & c2 & t2 & -> & H1 & H2 & H3). exists (c :: w), c2, t2.
+    split; [reflexivity|]. split; [constructor; assumption|]. auto.
+  - intros H. exists [], c, t. split; [reflexivity|]. split; [constructor|]. split; [exact E|lia].
+Qed.
+
+Lemma nil_b_false l : negb (nil_b l) = true -> l <> [].
+Proof. destruct l; [discriminate|discriminate]. Qed.
+
+Lemma nil_imp name w1 : negb (nil_b name) || nil_b w1 = true -> name = [] -> w1 = [].
+Proof. intros H ->. cbn in H. destruct w1; [reflexivity|discriminate]. Qed.
+
+Lemma gattr_okb_sound a rest : gattr_okb a rest = true -> gattr_ok a rest.
+Proof.
+  unfold gattr_okb, gattr_ok. intros H. apply andb_true_iff in H. destruct H as (Hl & Hv).
+  split; [apply all_ws_b_sound; exact Hl|]. destruct (g_val a) as [|w1 w2 x|w1 w2 q x].
+  - repeat (apply andb_true_iff in Hv; destruct Hv as (Hv & ?)).
+    split; [apply nil_b_false; assumption|]. split; [apply name_run_b_sound; assumption|].
+    split; [apply name_end_b_sound; assumption|apply next_not_eq_b_sound; assumption].
+  - repeat (apply andb_true_iff in Hv; destruct Hv as (Hv & ?)).
+    split; [apply all_ws_b_sound; assumption|]. split; [apply all_ws_b_sound; assumption|].
+    split; [apply nil_imp; assumption|]. split; [apply name_run_b_sound; assumption|].
+    split; [apply name_run_b_sound; assumption|]. split; [apply name_end_b_sound; assumption|].
+    b2p. repeat split; try assumption; lia.
+  - repeat (apply andb_true_iff in Hv; destruct Hv as (Hv & ?)).
+    split; [apply all_ws_b_sound; assumption|]. split; [apply all_ws_b_sound; assumption|].
+    split; [apply nil_imp; assumption|]. split; [apply name_run_b_sound; assumption|].
+    split; [lia|]. match goal with H : forallb _ x = true |- _ => revert H end. apply forallb_Forall. intros c Hc. lia.
+Qed.
+
+Lemma gattrs_okb_sound l tail : gattrs_okb l tail = true -> gattrs_ok l tail.
+Proof.
+  induction l as [|a t IH]; cbn [gattrs_okb gattrs_ok]; [auto|]. intros H. b2p.
+  split; [apply gattr_okb_sound; assumption|apply IH; assumption].
+Qed.
+
+Lemma itag_okb_sound pi n gs ws k : itag_okb pi n gs ws k = true -> item_ok (ITag pi n gs ws k).
+Proof.
+  unfold itag_okb. cbn [item_ok]. intros H. repeat (apply andb_true_iff in H; destruct H as (H & ?)).
+  split; [apply is_name_b_sound; assumption|]. split.
+  { intros ->. cbn [orb] in *. lia. }
+  split; [apply all_ws_b_sound; assumption|]. split.
+  { unfold is_closer_ty. destruct k; try discriminate; auto. }
+  split; [apply gattrs_okb_sound; assumption|apply name_end_b_sound; assumption].
+Qed.
+
 Lemma item_okb_sound it : item_okb it = true -> item_ok it.
 Proof.
-  destruct it as [t|b|b|ps|n attrs ws|n attrs ws void|n ws]; cbn [item_okb item_ok]; intros H; b2p.
+  destruct it as [t|b|b|ps|n attrs ws|n attrs ws void|n ws|pi n gs ws k]; [| | | | | | |apply itag_okb_sound];
+    cbn [item_okb item_ok]; intros H; b2p.
   - split; [destruct t; discriminate|]. match goal with H : forallb _ t = true |- _ => revert H end.
     apply forallb_Forall. intros x Hx. lia.
   - split; [apply nz_b_sound; assumption|apply no_occ_b_sound; assumption].
@@ -193,4 +306,58 @@ Theorem xml_doctype_single_quote_proof :
 Proof.
   split; [apply ex_squote_items_bytes|]. rewrite <- ex_squote_items_bytes.
   apply xml_wellformed_tokens_proof. apply ex_squote_items_ok.
+Qed.
+
+(* ---- the general tag opener: processing instructions whose content is not pseudo-attributes ------------------- *)
+(* a conforming attribute is a piece with a quoted value *)
+Definition g_of_attr (a : attr) : gattr := mkG (a_lead a) (a_name a) (VQuo (a_ws1 a) (a_ws2 a) (a_q a) (a_val a)).
+
+Lemma render_g_of_attrs attrs : render_gattrs (map g_of_attr attrs) = render_attrs attrs.
+Proof. unfold render_gattrs, render_attrs. rewrite map_map. reflexivity. Qed.
+
+Lemma expect_g_of_attrs attrs : map expect_gattr (map g_of_attr attrs) = map expect_attr attrs.
+Proof. rewrite map_map. reflexivity. Qed.
+
+(* the property-conforming PI and start tag are the special case of the general opener *)
+Theorem xml_tag_opener_conforming_proof : forall t attrs ws,
+  render_item (IPI t attrs ws) = render_item (ITag true t (map g_of_attr attrs) ws TStartTagClosePI) /\
+  expect_item (IPI t attrs ws) = expect_item (ITag true t (map g_of_attr attrs) ws TStartTagClosePI) /\
+  (forall void : bool, let k := if void then TStartTagCloseVoid else TStartTagClose in
+     render_item (IStart t attrs ws void) = render_item (ITag false t (map g_of_attr attrs) ws k) /\
+     expect_item (IStart t attrs ws void) = expect_item (ITag false t (map g_of_attr attrs) ws k)).
+Proof.
+  intros t attrs ws. cbn [render_item expect_item]. rewrite render_g_of_attrs, expect_g_of_attrs.
+  split; [reflexivity|]. split; [reflexivity|]. intros void. destruct void; split; reflexivity.
+Qed.
+
+(* <?p a>b?><a/> as the lexer sees it: a PI opener with the piece " a" closed by '>', then text *)
+Definition ex_pi_gt_items : list item :=
+  [ ITag true [112] [mkG [32] [97] VNone] [] TStartTagClose; IText [98; 63; 62]; IStart [97] [] [] true ].
+
+Example ex_pi_gt_items_ok : doc_ok ex_pi_gt_items.
+Proof.
+  split.
+  - unfold ex_pi_gt_items. repeat apply Forall_cons; try apply Forall_nil; cbn [item_ok].
+    + split; [split; [discriminate|repeat constructor]|]. split; [discriminate|]. split; [constructor|].
+      split; [left; reflexivity|]. split.
+      * cbn [gattrs_ok render_gattrs map concat app closer_bytes]. split; [|exact I].
+        split; [repeat constructor|]. cbn [g_val g_name]. split; [discriminate|]. split; [split; [reflexivity|exact I]|].
+        split.
+        -- exists 62, []. split; [reflexivity|]. split; [reflexivity|]. intros [H|H]; discriminate.
+        -- exists [], 62, []. split; [reflexivity|]. split; [constructor|]. split; [reflexivity|discriminate].
+      * exists 32, [97; 62]. split; [reflexivity|]. split; [reflexivity|]. intros [H|H]; discriminate.
+    + split; [discriminate|repeat constructor; discriminate].
+    + split; [split; [discriminate|repeat constructor]|]. split; [discriminate|]. split; constructor.
+  - cbn. intuition discriminate.
+Qed.
+
+Theorem xml_pi_content_exact_proof :
+  render_doc ex_pi_gt_items = ex_pi_gt /\
+  lexes (xml_init ex_pi_gt) (expect_doc ex_pi_gt_items) 1 /\
+  map (fun t => fst (fst (fst t))) (expect_doc ex_pi_gt_items) =
+    [TStartTagPI; TAttribute; TStartTagClose; TText; TStartTag; TStartTagCloseVoid].
+Proof.
+  assert (E : render_doc ex_pi_gt_items = ex_pi_gt) by (vm_compute; reflexivity).
+  split; [exact E|]. split; [|vm_compute; reflexivity]. rewrite <- E.
+  apply xml_wellformed_tokens_proof. apply ex_pi_gt_items_ok.
 Qed.
